@@ -2,3 +2,5 @@ import PugProofs.Props.C17
 import PugProofs.Props.C18
 import PugProofs.Props.C01
 import PugProofs.Props.C02
+import PugProofs.Props.C06
+import PugProofs.Props.C13
